@@ -238,3 +238,30 @@ def tm_service_from_bytes(data: Bytes):
     ensures("raises-only", o.ok or o.raised(ValueError))
     if o.ok:
         ensures("value", o.value == data[7])
+
+
+@obligation(["C03", "C04", "C11"], "PusTm/setters", verifies=[M + "PusTm.tm_data", M + "PusTm.apid", M + "PusTm.to_space_packet", M + "PusTm.pack"])
+def tm_setters(service: IntRange(0, 255), subservice: IntRange(0, 255), apid: IntRange(0, 2047), count: IntRange(0, 16383),
+               msg: IntRange(0, 65535), dest: IntRange(0, 65535), tref: IntRange(0, 15), ver: IntRange(0, 7),
+               ts: Bytes, src: Bytes, which: Choice("tm_data", "apid"), new_src: Bytes, new_apid: IntRange(0, 2047),
+               packed_before: Bool):
+    """whatever was set after construction (packed before or not - packing fills the CRC cache): length, length field, octets,
+    CRC trailer and space-packet view are those of a freshly built telemetry packet with the final values"""
+    requires(len(ts) + len(src) <= MAX_VAR)
+    requires(len(ts) + len(new_src) <= MAX_VAR)
+    tm = PusTm(service, subservice, ts, src, apid, count, msg, tref, dest, ver)
+    if packed_before:
+        tm.pack()
+    if which == "tm_data":
+        tm.tm_data = new_src
+        expected = pus_tm_octets(ver, apid, count, service, subservice, msg, dest, tref, ts, new_src)
+    else:
+        tm.apid = new_apid
+        expected = pus_tm_octets(ver, new_apid, count, service, subservice, msg, dest, tref, ts, src)
+    view = tm.to_space_packet().pack()
+    ensures("space-packet-view-as-fresh", view == expected)
+    r = tm.pack()
+    ensures("octets-as-fresh", r == expected)
+    ensures("reported-length", both(tm.packet_len == len(r), tm.sp_header.data_len == len(r) - 7))
+    ensures("crc-residue", crc16(r) == 0)
+    ensures("view-after-pack", tm.to_space_packet().pack() == expected)
